@@ -8,6 +8,7 @@
 From Coq Require Import List Arith NArith Bool.
 Import ListNotations.
 Require Import Aiuti.Cache Aiuti.CacheLemmas Aiuti.CacheInv Aiuti.CacheInv2 Aiuti.CacheMon Aiuti.CacheMon1.
+Require Import Aiuti.CacheMonSpec Aiuti.CacheUnfixed.
 
 (* In every reachable state at most one invocation per key has status IActive.  IActive = started,
    not ended, and its loop has never stopped running since (an invocation left pending on a loop
@@ -57,6 +58,64 @@ Theorem ok_C01_sound_prefix :
   forall nloops tbl tr s, run (init nloops tbl) tr = Some s -> ok_C01 tbl tr = true.
 Proof. exact ok_C01_sound_run. Qed.
 Print Assumptions ok_C01_sound_prefix.
+
+(* CONVERSE direction: what "the monitor accepted a trace" means for that trace ALONE, without any
+   reference to the model.  Since the check evaluates ok_C01 on the trace observed from the REAL
+   code, these three theorems say what every accepted implementation trace satisfies.
+   (tbl: caller id -> (loop, key).)
+
+   No overlap: between two starts of the wrapped function for one key, the earlier invocation has
+   ended, or its loop has stopped running / finished its shutdown run (from which moment it counts
+   as ended, as the property says). *)
+Theorem ok_C01_implies_no_overlap :
+  forall tbl tr, ok_C01 tbl tr = true ->
+  forall pre i c t mid j c' t' post,
+    tr = pre ++ IStart i c t :: mid ++ IStart j c' t' :: post ->
+    tbl_key tbl c = tbl_key tbl c' ->
+    (exists r t2, In (IEnd i r t2) mid) \/ In (LoopEv (tbl_loop tbl c) 0) mid \/
+    In (LoopEv (tbl_loop tbl c) 2) mid.
+Proof. exact ok_C01_no_overlap. Qed.
+Print Assumptions ok_C01_implies_no_overlap.
+
+(* After a success: once invocation i (started by c0, its latest start) has returned successfully,
+   the wrapped function is never started again for c0's key and every value returned later to a
+   caller of that key is i's result. *)
+Theorem ok_C01_implies_no_reinvoke :
+  forall tbl tr, ok_C01 tbl tr = true ->
+  forall p1 i c0 t0 p2 t post,
+    tr = p1 ++ IStart i c0 t0 :: p2 ++ IEnd i 0 t :: post ->
+    (forall c1 t1, ~ In (IStart i c1 t1) p2) ->
+    (forall j c' t', In (IStart j c' t') post -> tbl_key tbl c' <> tbl_key tbl c0) /\
+    (forall c' v tv, In (Done c' 0 v tv) post -> tbl_key tbl c' = tbl_key tbl c0 -> v = i).
+Proof. exact ok_C01_after_success. Qed.
+Print Assumptions ok_C01_implies_no_reinvoke.
+
+(* Every returned value is the result of an invocation for the caller's key that was started and
+   ended successfully before. *)
+Theorem ok_C01_implies_ret_is_success :
+  forall tbl tr, ok_C01 tbl tr = true ->
+  forall pre c v tv post, tr = pre ++ Done c 0 v tv :: post ->
+    exists q1 c0 t0 q2 t1 q3,
+      pre = q1 ++ IStart v c0 t0 :: q2 ++ IEnd v 0 t1 :: q3 /\
+      (forall c1 t', ~ In (IStart v c1 t') q2) /\
+      tbl_key tbl c0 = tbl_key tbl c.
+Proof. exact ok_C01_ret_is_success. Qed.
+Print Assumptions ok_C01_implies_ret_is_success.
+
+(* The defect F1, kept documented in Coq: WITHOUT the repair fac37d0 (the finally block removes the
+   in-flight marker unconditionally; CacheUnfixed.stepU false true, which differs from the model
+   only in that step) the schedule of DESIGN 6/F1 — loop 0 stops with its computation pending,
+   caller 1 takes over, loop 0 is shut down, caller 2 arrives — reaches a state with two
+   invocations of one key active at once on running loops, and the monitor rejects that trace.
+   The witness is the trace recorded from /repo with the fix reverted. *)
+Theorem single_flight_refuted_without_fix1 :
+  exists tr u i j ir jr,
+    runU false true (initU 3 tbl_F1) tr = Some u
+    /\ nth_error (invs (ust u)) i = Some ir /\ nth_error (invs (ust u)) j = Some jr
+    /\ i <> j /\ istat ir = IActive /\ istat jr = IActive /\ ikey ir = ikey jr
+    /\ ok_C01 tbl_F1 tr = false.
+Proof. exact single_flight_refuted_without_fix1_l. Qed.
+Print Assumptions single_flight_refuted_without_fix1.
 
 (* the monitor is not trivially true: it rejects two overlapping invocations of one key, an
    invocation after a success, and a returned value that is not the successful result *)
